@@ -53,6 +53,8 @@ type KillCase struct {
 	ProjDir string `json:"proj_dir,omitempty"`
 	// Invoke: how spok is pointed at the project (sandbox.Box.Invoke)
 	Invoke string            `json:"invoke,omitempty"`
+	// Outputs: "files" = standard output and error are regular files (sandbox.Box.FileOutputs)
+	Outputs string `json:"outputs,omitempty"`
 	Tasks  []KTask           `json:"tasks"`
 	Init   map[string]string `json:"init"`
 	Steps  []KStep           `json:"steps"`
@@ -93,6 +95,7 @@ func genKill(t *rapid.T) KillCase {
 	c.Cpus = rapid.SampledFrom([]string{"", "", "", "0,1", "0"}).Draw(t, "cpus")
 	c.ProjDir = genProjDir(t)
 	c.Invoke = genInvoke(t)
+	c.Outputs = genOutputs(t)
 	return c
 }
 
@@ -237,6 +240,7 @@ func execKill(s *ev.Shard, b *sandbox.Box, c KillCase) *rp.Fail {
 	if err := b.ResetFor(c.ProjDir, c.Invoke); err != nil {
 		return &rp.Fail{Sig: "harness", Msg: err.Error()}
 	}
+	b.FileOutputs = c.Outputs == "files"
 	b.Cpus = c.Cpus
 	src := c.source()
 	files := map[string]string{"spokfile": src}
